@@ -219,22 +219,60 @@ func r08b(c *core.Ctx) {
 		return
 	}
 	final := add.Call.Args[1]
-	okChain := false
 	desc := core.Expr(final)
-	if p2, ok := final.(*ssa.Phi); ok && len(p2.Edges) == 2 {
-		for i := 0; i < 2; i++ {
-			capV, rest := p2.Edges[i], p2.Edges[1-i]
-			if core.Expr(capV) != "c.maximumTtl" {
-				continue
+	isMaxTtl := func(v ssa.Value) bool {
+		u, ok := v.(*ssa.UnOp)
+		if !ok || u.Op != token.MUL {
+			return false
+		}
+		fa, ok := u.X.(*ssa.FieldAddr)
+		return ok && core.FieldAddrRef(fa).Name == "maximumTtl"
+	}
+	// final = min(rest, maximumTtl): the builtin, or phi(maximumTtl | rest) taken on the `rest > maximumTtl` edge
+	var rest ssa.Value
+	switch x := final.(type) {
+	case *ssa.Call:
+		if bi, isB := x.Call.Value.(*ssa.Builtin); isB && bi.Name() == "min" && len(x.Call.Args) == 2 {
+			for i := 0; i < 2; i++ {
+				if isMaxTtl(x.Call.Args[i]) {
+					rest = x.Call.Args[1-i]
+				}
 			}
-			// cap edge guarded by rest > c.maximumTtl
-			capGuard := hasCond(p2.Block().Preds[i], "("+core.Expr(rest)+" > c.maximumTtl)", true)
-			if p1, ok := rest.(*ssa.Phi); ok && len(p1.Edges) == 2 {
-				for j := 0; j < 2; j++ {
-					floorV, base := p1.Edges[j], p1.Edges[1-j]
-					if k, ok := core.ConstInt(floorV); ok && k == 1000000000 && base == ttl0 {
-						floorGuard := hasCond(p1.Block().Preds[j], "("+core.Expr(ttl0)+" <= 0)", true)
-						okChain = capGuard && floorGuard
+		}
+	case *ssa.Phi:
+		if len(x.Edges) == 2 {
+			for i := 0; i < 2; i++ {
+				capV, r := x.Edges[i], x.Edges[1-i]
+				if !isMaxTtl(capV) {
+					continue
+				}
+				// the cap edge is taken exactly when maximumTtl < rest
+				for _, cnd := range core.CondsAt(x.Block().Preds[i]) {
+					if cm, ok := core.CmpOf(cnd.Cond); ok && cm.Op == "<" && isMaxTtl(cm.XV) && cm.YV == r && cnd.Val != cm.Neg {
+						rest = r
+					}
+				}
+			}
+		}
+	}
+	// rest = (ttl0 <= 0 ? 1s : ttl0)
+	okChain := false
+	if p1, ok := rest.(*ssa.Phi); ok && len(p1.Edges) == 2 {
+		for j := 0; j < 2; j++ {
+			floorV, base := p1.Edges[j], p1.Edges[1-j]
+			if k, ok := core.ConstInt(floorV); ok && k == 1000000000 && base == ssa.Value(ttl0) {
+				for _, cnd := range core.CondsAt(p1.Block().Preds[j]) {
+					// ttl0 <= 0  ==  !(0 < ttl0)
+					if cm, ok := core.CmpOf(cnd.Cond); ok && cm.Op == "<" && cm.YV == ssa.Value(ttl0) && cnd.Val == cm.Neg {
+						if z, isC := core.ConstInt(cm.XV); isC && z == 0 {
+							okChain = true
+						}
+					}
+					// or ttl0 < 1
+					if cm, ok := core.CmpOf(cnd.Cond); ok && cm.Op == "<" && cm.XV == ssa.Value(ttl0) && cnd.Val != cm.Neg {
+						if z, isC := core.ConstInt(cm.YV); isC && z == 1 {
+							okChain = true
+						}
 					}
 				}
 			}
@@ -339,23 +377,92 @@ func r08d(c *core.Ctx) {
 			}
 			n++
 			key := fmt.Sprintf("hit-aged#%d", n)
-			// a SubtractTTL(o, uint32(time.Since(ST).Seconds())) call dominates the return, with ST the returned storedTime
-			var subCall *ssa.Call
+			// a SubtractTTL(o, uint32(time.Since(ST).Seconds())) call dominates the return, with ST the returned storedTime;
+			// the call, or the computation of its delta, may sit in a helper of the same package
+			var subAt ssa.Instruction // the call in Get
+			var delta ssa.Value       // the delta argument of SubtractTTL
+			var sub1 map[*ssa.Parameter]ssa.Value
 			for _, call := range core.Calls(get) {
-				if core.StaticCallee(call) == sub && core.InstrDominates(call, ret) {
-					if cc, ok := call.(*ssa.Call); ok && derivesFrom(cc.Call.Args[0], o) {
-						subCall = cc
+				cc, ok := call.(*ssa.Call)
+				if !ok || !core.InstrDominates(call, ret) {
+					continue
+				}
+				callee := core.StaticCallee(call)
+				if callee == sub && derivesFrom(cc.Call.Args[0], o) {
+					subAt, delta, sub1 = cc, cc.Call.Args[1], nil
+				} else if callee != nil && callee.Pkg == get.Pkg && callee.Blocks != nil {
+					// helper(m, …) that applies SubtractTTL to its parameter on every path
+					for _, hc := range core.Calls(callee) {
+						hcc, ok := hc.(*ssa.Call)
+						if !ok || core.StaticCallee(hc) != sub {
+							continue
+						}
+						if core.Reach(callee, nil, core.IsReturn, func(in ssa.Instruction) bool { return in == ssa.Instruction(hcc) }) != nil {
+							continue
+						}
+						binds := map[*ssa.Parameter]ssa.Value{}
+						for k, p := range callee.Params {
+							if k < len(cc.Call.Args) {
+								binds[p] = cc.Call.Args[k]
+							}
+						}
+						if p, isP := core.Strip(hcc.Call.Args[0]).(*ssa.Parameter); isP && binds[p] != nil && derivesFrom(binds[p], o) {
+							subAt, delta, sub1 = cc, hcc.Call.Args[1], binds
+						}
 					}
 				}
 			}
-			if subCall == nil {
+			if subAt == nil {
 				c.Bad(key, ret.Pos(), get, "a cache hit is returned only after SubtractTTL was applied to that message", "no dominating SubtractTTL on "+core.Expr(o))
 				continue
 			}
-			delta := core.Expr(subCall.Call.Args[1])
+			// delta = uint32(time.Since(X).Seconds()), possibly computed by a helper from its parameter
+			sinceArg := func(v ssa.Value) ssa.Value {
+				cv, ok := v.(*ssa.Convert)
+				if !ok {
+					return nil
+				}
+				sec, ok := cv.X.(*ssa.Call)
+				if !ok || core.CallName(sec) != "(time.Duration).Seconds" {
+					return nil
+				}
+				since, ok := sec.Call.Args[0].(*ssa.Call)
+				if !ok || core.CallName(since) != "time.Since" {
+					return nil
+				}
+				return since.Call.Args[0]
+			}
+			resolve := func(v ssa.Value, binds map[*ssa.Parameter]ssa.Value) ssa.Value {
+				if p, isP := core.Strip(v).(*ssa.Parameter); isP && binds != nil && binds[p] != nil {
+					return binds[p]
+				}
+				return v
+			}
+			x := sinceArg(delta)
+			if x != nil {
+				x = resolve(x, sub1)
+			} else if dc, isCall := delta.(*ssa.Call); isCall {
+				if h := core.StaticCallee(dc); h != nil && h.Pkg == get.Pkg && h.Blocks != nil {
+					rets := returnsOf(h)
+					if len(rets) == 1 {
+						if hx := sinceArg(rets[0].Results[0]); hx != nil {
+							binds := map[*ssa.Parameter]ssa.Value{}
+							for k, p := range h.Params {
+								if k < len(dc.Call.Args) {
+									binds[p] = resolve(dc.Call.Args[k], sub1)
+								}
+							}
+							x = resolve(hx, binds)
+						}
+					}
+				}
+			}
 			st := core.Expr(rs[1])
-			want := "conv(time.Since(" + st + ").Seconds())"
-			c.Check(delta == want, key, subCall.Pos(), get, "delta = uint32(time.Since(storedTime).Seconds()) of the same storedTime that is returned for the entry", "delta="+delta+" storedTime="+st)
+			got := "?"
+			if x != nil {
+				got = core.Expr(x)
+			}
+			c.Check(x != nil && got == st, key, subAt.Pos(), get, "delta = uint32(time.Since(storedTime).Seconds()) of the same storedTime that is returned for the entry", "delta from "+got+" storedTime="+st)
 			// m is produced by unpackCacheMsg of the backend value of that same lookup
 			c.Check(strings.HasPrefix(core.Expr(o), "router.unpackCacheMsg("), key+"-private", ret.Pos(), get, "the hit is a message freshly decoded by unpackCacheMsg (private copy)", core.Expr(o))
 		}
